@@ -385,6 +385,17 @@ theorem vm_catch_call (n : Nat) (goal catcher recover : Term) (k : Cont) (env : 
   simp only [builtin]
   rfl
 
+/-- the same seen from `Arrive`: the environment the closure captures is the environment of the call
+    (plus `Arrive`'s binding of the context variable to `catch/3`) -/
+theorem vm_catch_arrive (n : Nat) (goal catcher recover : Term) (k : Cont) (env : Env) (m : MS) :
+    arrive (n + 2) "catch" [goal, catcher, recover] k env m =
+      some ({ delayed := [.catchBody goal m.user.nextId k
+                (env.bind varContext (.app "/" (.cons (.atom "catch") (.cons (.int 3) .nil))))],
+              recover := some ⟨m.user.nextId, catcher, recover, k,
+                env.bind varContext (.app "/" (.cons (.atom "catch") (.cons (.int 3) .nil)))⟩ }, (freshId m).2) := by
+  simp only [arrive, vm_catch_call]
+  rfl
+
 /-- no flag has been written under an identifier that has not been drawn yet -/
 def FlagsBelow (s : St) : Prop := ∀ f b, (f, b) ∈ s.flags → f < s.nextId
 
